@@ -604,6 +604,44 @@ func C07(c *core.Ctx) {
 								Input: map[string]interface{}{"yang": y, "tree": full, "find": tg.path + "?" + first, "constrain": second, "one_step": path}, Impl: out2, Spec: out})
 						}
 					}
+					// sibling selections: two selections derived from one constrained parent by parameter-only Finds do not
+					// disturb each other - the first still answers as if its parameters had been given with the parent's
+					if parts := strings.Split(qs, "&"); rerr == nil && len(parts) >= 3 {
+						parentQ, firstQ, secondQ := parts[0], parts[1], strings.Join(parts[2:], "&")
+						var outFirst, oneStep string
+						errS := safeDo(func() error {
+							parent, err := b.Root().Find(tg.path + "?" + parentQ)
+							if err != nil || parent == nil {
+								return fmt.Errorf("parent: %v", err)
+							}
+							s1, err := parent.Find("?" + firstQ)
+							if err != nil || s1 == nil {
+								return fmt.Errorf("first sibling: %v", err)
+							}
+							s2, err := parent.Find("?" + secondQ)
+							if err != nil || s2 == nil {
+								return fmt.Errorf("second sibling: %v", err)
+							}
+							if _, err = nodeutil.WriteJSON(s2); err != nil {
+								return nil // the second sibling's own parameters may be refused; not the point here
+							}
+							if outFirst, err = nodeutil.WriteJSON(s1); err != nil {
+								return err
+							}
+							ref, err := b.Root().Find(tg.path + "?" + parentQ + "&" + firstQ)
+							if err != nil || ref == nil {
+								return fmt.Errorf("one step: %v", err)
+							}
+							oneStep, err = nodeutil.WriteJSON(ref)
+							return err
+						})
+						c.Evaluations++
+						c.Count("siblings", fmt.Sprint(errS == nil))
+						if errS == nil && oneStep != "" && outFirst != oneStep {
+							c.Violation(core.Replay{Kind: "property-failure", Class: "siblings", Summary: fmt.Sprintf("Find(%q) then sibling Finds %q and %q: the first sibling reads %s; the same parameters in one step read %s", tg.path+"?"+parentQ, "?"+firstQ, "?"+secondQ, short(outFirst), short(oneStep)),
+								Input: map[string]interface{}{"yang": y, "tree": full, "parent": tg.path + "?" + parentQ, "first": firstQ, "second": secondQ}, Impl: outFirst, Spec: oneStep})
+						}
+					}
 					line := "c07 proj " + q.model()
 					if tg.isList {
 						rowsToks := []string{fmt.Sprint(len(tg.rows))}
